@@ -22,6 +22,7 @@ type ArrayList interface {
 	Grow(int)
 	AppendVal(elements ...Value) Value
 	RemoveAt(i int)
+	Clear()
 	RemoveAtErr(index int) Value
 	IterList() ArrayListIterator
 	NewArrayList(capacity int) ArrayList
